@@ -291,6 +291,9 @@ def run(rep: Report, tier: str) -> None:  # noqa: C901
                                     f"{sk.func.name} gathers the values a viral propagation rule reduces with a plain UNION: two children (or operands) carrying the same values for the same "
                                     f"identifiers collapse into one row, so `aggregate sum` / `avg` and non-idempotent enumerated rules see too few values"))
     rep.floor("R28.7 unions in viral-propagation SQL", n7, 2)
+    rep.rule("R28.10", "aggregations (sum / count / min / avg, every grouping): the viral attributes semantic analysis declares for the result are in the transpiler's intermediate structure too")
+    from sa.checks.c03 import aggregation_structures
+    aggregation_structures(P, rep, "R28.10", viral_only=True)
     rep.rule("R28.9", "aggregate-function rules over a group use the order-independent aggregate of the column, not a fold over list(col)")
     group_forms_by_rule_kind(P, rep, "R28.9")
     # ---- R28.8 the result of DS op DS carries the viral attributes of BOTH operands, in both structure computations ----
